@@ -44,7 +44,7 @@ def gen_doc(rng, big=False, faults=True, huge=False):
     nextn = [0]
 
     def decls():
-        if rng.random() < 0.3:
+        if rng.random() < 0.4:
             return [(rng.choice([7, 8]), rng.choice([1, 2])) for _ in range(rng.randint(1, 2))]
         return []
 
@@ -70,7 +70,8 @@ def gen_doc(rng, big=False, faults=True, huge=False):
         return {'tag': 'link', 'attrs': a, 'text': None, 'decls': [], 'kids': []}
 
     def sec(tag, d):
-        kids = [{'tag': 'title', 'attrs': {}, 'text': 'T', 'decls': [], 'kids': []}]
+        # (the first chunk below a section may carry declarations of its own)
+        kids = [{'tag': 'title', 'attrs': {}, 'text': 'T', 'decls': decls() if rng.random() < 0.5 else [], 'kids': []}]
         kids += [item() for _ in range(rng.randint(0, 40 if big else 3) if not (huge and d == 0) else rng.randint(500, 1200))]
         kids += [link() for _ in range(rng.randint(0, 3))]
         if d < 2:
@@ -107,7 +108,9 @@ def gen_doc(rng, big=False, faults=True, huge=False):
                 # a prefix that other elements of the document declare (possibly the previous chunk) but is not in scope here
                 n['attrs']['q'] = '%s:%s' % (rng.choice(sorted({'p', 'q'} - scope)), local())
             else:
-                n['attrs']['q'] = '%s:%s' % (rng.choice(sorted(scope)), local())
+                # prefer a prefix declared on the item or on an enclosing section over the root's
+                inner = sorted(scope - {'t'})
+                n['attrs']['q'] = '%s:%s' % (rng.choice(inner) if inner and rng.random() < 0.7 else rng.choice(sorted(scope)), local())
         for k in n['kids']:
             walk(k, scope)
     walk(doc, {'t'})
